@@ -2316,6 +2316,10 @@ def chain_child(scope):
     # previous failed branches are forgiven as the
     # scope is re-wired into a new stack
     del nxt_in_chain.maps[0][CHILD_ERRORS][:]
+    # the next step runs in the mode of the enclosing spec, not in a mode
+    # the previous step switched to for its own sub-tree (Fill, Match, ...)
+    nxt_in_chain.maps[0][MODE] = scope.maps[0][MODE]
+    nxt_in_chain.maps[0][MIN_MODE] = scope.maps[0][MIN_MODE]
     return nxt_in_chain
 
 
